@@ -28,15 +28,29 @@ fn utf16(text: &str, be: bool, out: &mut Vec<u8>) {
 
 pub fn gen_case(sub: u64) -> EncCase {
     let mut rng = Rng::new(sub);
-    let nl = if rng.chance(1, 16) { 300 + rng.below(1500) } else { rng.below(40) };
-    let source = rng.below(10);
+    // 1 in 120 cases is large: the encoded file exceeds the 64 KiB buffers and, being mostly
+    // CJK text, its UTF-8 transcoding is longer than the file itself
+    let huge = rng.chance(1, 120);
+    let nl = if huge { 4000 + rng.below(5000) } else if rng.chance(1, 16) { 300 + rng.below(1500) } else { rng.below(40) };
+    let source = if huge { [0, 1, 3, 4, 6][rng.below(5)] } else { rng.below(10) };
+    // by-label encodings (source 6): the label decides which words can be encoded
+    const LABELS: [&str; 12] = ["windows-1252", "shift_jis", "euc-kr", "iso-2022-jp", "euc-jp", "gbk", "big5", "gb18030", "koi8-r", "iso-8859-2", "windows-1251", "latin1"];
+    let by_label = LABELS[rng.below(LABELS.len())];
     // which characters are available depends on the target encoding
-    let pool: Vec<&str> = match source {
-        6 => WORDS.iter().cloned().filter(|w| w.chars().all(|c| (c as u32) < 0x100)).collect(), // windows-1252
-        7 => WORDS.iter().cloned().filter(|w| w.is_ascii() || w.contains('\u{65e5}') || w.contains('\u{3042}')).collect(), // shift_jis
-        8 => WORDS.iter().cloned().filter(|w| w.is_ascii() || w.contains('\u{d55c}')).collect(), // euc-kr
+    let mut pool: Vec<&str> = match source {
+        6 | 7 | 8 => {
+            let enc = Encoding::for_label(by_label.as_bytes()).unwrap();
+            WORDS.iter().cloned().filter(|w| !enc.encode(w).2).collect()
+        }
         _ => WORDS.to_vec(),
     };
+    if huge {
+        // mostly words outside ASCII (3 bytes of UTF-8 for 2 bytes of UTF-16 / 1-2 bytes of a legacy encoding)
+        let wide: Vec<&str> = pool.iter().cloned().filter(|w| !w.is_ascii()).collect();
+        for _ in 0..3 {
+            pool.extend(wide.iter().cloned());
+        }
+    }
     let mut text = String::new();
     if rng.chance(1, 40) {
         text.push('\u{feff}'); // content that itself starts with U+FEFF
@@ -109,7 +123,7 @@ pub fn gen_case(sub: u64) -> EncCase {
             recipe = "utf-8 by label".into();
         }
         6 | 7 | 8 => {
-            let l = ["windows-1252", "shift_jis", "euc-kr"][source - 6];
+            let l = by_label;
             let enc = Encoding::for_label(l.as_bytes()).unwrap();
             let (b, _, _) = enc.encode(&text);
             data.extend_from_slice(&b);
@@ -137,6 +151,13 @@ pub fn gen_case(sub: u64) -> EncCase {
     cfg.term = Term::Lf;
     cfg.stop_nm = false;
     cfg.encoding = label;
+    if huge {
+        cfg.multi_line = rng.chance(1, 2);
+        cfg.a = cfg.a.min(1);
+        cfg.b = cfg.b.min(1);
+        cfg.passthru = false;
+        cfg.invert = false;
+    }
     let raw16 = cfg.encoding.as_deref() == Some("none") && data.starts_with(b"\xFF\xFE");
     let pattern = if cfg.multi_line && rng.chance(1, 2) && !raw16 { ML_PATTERNS[rng.below(ML_PATTERNS.len())] } else { PATTERNS[rng.below(PATTERNS.len())] }.to_string();
     EncCase { case: Case { data, pattern, cfg }, recipe }
@@ -262,7 +283,7 @@ pub fn run_case(sub: u64, histories: usize, scratch: &Path, acc: &mut Acc) {
         }
         strategies.push((Strategy::Reader(h), gen_knobs(&mut rng)));
     }
-    if rng.chance(1, 10) {
+    if rng.chance(1, 10) || ec.case.data.len() > 65536 {
         strategies.push((Strategy::Path { mmap: true }, Knobs { cloned: rng.chance(1, 2), ..Knobs::default() }));
         strategies.push((Strategy::Path { mmap: false }, Knobs { cloned: rng.chance(1, 2), ..Knobs::default() }));
         strategies.push((Strategy::Slice, Knobs { cloned: true, ..Knobs::default() }));
